@@ -123,6 +123,15 @@ impl Prop for C18 {
                     f(Case::s(d));
                 }
             }),
+            Scope::new("settings-histories", "4 drawings x every ordered pair (X, Y) of 11 settings that differ from the default in exactly one field (or not at all): Y converted right after X must equal Y converted right after a conversion whose settings differ in every field, and its style sheet must carry Y's own value", |f| {
+                for d in 0..4i64 {
+                    for x in 0..11i64 {
+                        for y in 0..11i64 {
+                            f(Case::sn("hist", vec![d, x, y]));
+                        }
+                    }
+                }
+            }),
             Scope::new("entry-points", "corpus x the five entry points", move |f| {
                 for d in corpus(tier) {
                     f(Case::s(d));
@@ -272,6 +281,73 @@ impl Prop for C18 {
                         return;
                     }
                 }
+            }
+            "settings-histories" => {
+                let (di, x, y) = (case.n[0] as usize, case.n[1], case.n[2]);
+                let docs = ["+--+\n|  |->*\n+--+", "*--#  hello\n\n .-.\n(   )\n `-'", "+-----+\n|{a}  |\n+-----+\n# Legend:\na = {fill:red}", "  ^\n  |\no-+->"];
+                let doc = docs[di];
+                let token = 0x100000 + (di as i64) * 121 + x * 11 + y;
+                let variant = |k: i64, salt: i64| -> (Sett, Option<String>) {
+                    let mut s = Sett::default_();
+                    let u = format!("#{:06x}", token * 2 + salt);
+                    let mut val = None;
+                    match k {
+                        1 => {
+                            s.font_family = format!("fam{}", token * 2 + salt);
+                            val = Some(s.font_family.clone());
+                        }
+                        2 => {
+                            s.fill_color = u.clone();
+                            val = Some(u);
+                        }
+                        3 => {
+                            s.background = u.clone();
+                            val = Some(u);
+                        }
+                        4 => {
+                            s.stroke_color = u.clone();
+                            val = Some(u);
+                        }
+                        5 => s.font_size = 15 + salt as usize,
+                        6 => s.stroke_width = 3.5 + salt as f32,
+                        7 => s.scale = 5.0 + salt as f32,
+                        8 => s.backdrop = false,
+                        9 => s.styles = false,
+                        10 => s.defs = false,
+                        _ => {}
+                    }
+                    (s, val)
+                };
+                let (xs, _) = variant(x, 0);
+                let (ys, yval) = variant(y, 1);
+                let zs = Sett { scale: 3.0, backdrop: true, styles: true, defs: true, font_size: 33, font_family: "zz".into(), fill_color: "#123".into(), background: "#456".into(), stroke_color: "#789".into(), stroke_width: 7.5 };
+                if cx.conv(doc, &xs).is_none() {
+                    return;
+                }
+                let o1 = match cx.conv(doc, &ys) {
+                    Some(o) => o,
+                    None => return,
+                };
+                if cx.conv(doc, &zs).is_none() {
+                    return;
+                }
+                let o2 = match cx.conv(doc, &ys) {
+                    Some(o) => o,
+                    None => return,
+                };
+                cx.compared();
+                if o1 != o2 {
+                    cx.fail("settings-history", format!("drawing {:?} with settings {} gives another document right after a conversion with settings {} than right after one whose settings differ in every field", doc, ys.to_json(), xs.to_json()));
+                    return;
+                }
+                if let Some(u) = yval {
+                    let style = &o1;
+                    if !style.contains(&u) {
+                        cx.fail("settings-history", format!("drawing {:?}: the style sheet does not carry the value {:?} of settings {} (converted right after settings {})", doc, u, ys.to_json(), xs.to_json()));
+                        return;
+                    }
+                }
+                cx.outcome(&(di, x.min(1), y));
             }
             "override" => {
                 let s = Sett::default_();
